@@ -316,6 +316,14 @@ func runC18(e *Env) {
 			body, _ = xml.Marshal(a)
 		case "query":
 			method = pick(r, []string{"GET", "DELETE", "HEAD", "OPTIONS"})
+			if chance(r, 1, 5) {
+				// method tokens are case-sensitive: "post" is not POST, such a request is "anything but POST, PUT
+				// and PATCH" and is bound from its query string - whatever body and Content-Type it carries
+				method = pick(r, []string{"post", "Put", "patch", "Post"})
+				ctype = pick(r, []string{"application/json", "application/xml", "application/x-www-form-urlencoded", "text/plain", ""})
+				body = []byte(pick(r, []string{`{"age":4242,"name":"from-the-body"}`, `<bindA><age>4242</age><name>from-the-body</name></bindA>`, `age=4242&name=from-the-body`}))
+				t.Count("roundtrip.query_with_method_token_not_upper_case", 1)
+			}
 		}
 		t.Describe(func() any {
 			return map[string]any{"value": fmt.Sprintf("%+v", a), "format": format, "method": method, "content_type": ctype, "via": via, "body": string(body)}
@@ -505,6 +513,13 @@ func runC18(e *Env) {
 			}
 			if ierr != nil && err == nil && (strictDocKinds[ct.Kind] || !jsonPrefixValid(ct.Kind, body)) {
 				t.Fail("malformed-accepted", "%s body %q is refused by an independent decoder (%v) but the binder reported success, bound %+v", ct.Kind, body, ierr, got)
+			}
+		}
+		// a url-encoded body that an independent parser refuses (bad escape, ';' separator) is malformed as
+		// a whole: no partial bind
+		if bodyMethods[method] && ct.Kind == "form" && err == nil {
+			if _, perr := url.ParseQuery(string(body)); perr != nil {
+				t.Fail("malformed-accepted", "form body %q is refused by an independent parser (%v) but the binder reported success, bound %+v", body, perr, got)
 			}
 		}
 		if bodyMethods[method] && ct.Kind == "other" && err == nil {
